@@ -526,6 +526,7 @@ class Checker:
         self.c = {}
         self.pending = []     # (kind, what, case, actual, expected) to be reproduced before reporting
         self.open_ids = {k["id"] for k in rep.known}
+        self.nsample = {}
 
     def bump(self, k, n=1):
         self.c[k] = self.c.get(k, 0) + n
@@ -591,6 +592,7 @@ class Checker:
                 fix = v["fix"]
                 devs = [d for d in ("emptyImport", "dotBracket") if fix.get(d)][:1] or ["emptyImport", "dotBracket"]
                 if fix["all"]:
+                    rep.count("traces_validated_against_impl")      # TLC's model of the code agrees with the code on this record
                     for d in devs:
                         self.finding(d, "%r prints as %r, which %s" % (src, src_text(rec["printed"]), "is rejected" if not rt.get("ok") else "parses to a different AST"))
                 else:
@@ -614,8 +616,9 @@ class Checker:
             rep.count("traces_validated_against_impl")
             if rec["ok"]:
                 rep.nontrivial(rec["srcB"])
-                if rec.get("tag") != "tokseq" or len(rec["srcB"]) > 4:
-                    rep.sample({"source": src, "printed": src_text(rec["printed"]), "tokens": v.get("ntok"), "family": family}, limit=8)
+                self.nsample[family] = self.nsample.get(family, 0) + 1
+                if self.nsample[family] % 97 == 3 and self.nsample[family] < 300 and len(rec["srcB"]) < 200:
+                    rep.sample({"source": src, "printed": src_text(rec["printed"]), "tokens": v.get("ntok"), "family": family}, limit=12)
 
     def classify_vars(self, rec, v, case, src):
         """re-spacings: the same token sequence (decided by Lexer.tla) must give the same outcome and AST"""
@@ -777,12 +780,17 @@ def run(tier, seed, replay):
         os.remove(out2)
 
         profiles = [a["profile"] for a in alphabets]
-        mclens = {p: 3 for p in profiles} if quick else {p: 4 for p in profiles}
+        pieces = {"strings", "comments"}        # alphabets of token pieces (C09Universe!PieceProfiles)
+        tokprofiles = [p for p in profiles if p not in pieces]
         if quick:
-            mclens[profiles[(seed - 1) % len(profiles)]] = 4
+            mclens = {p: 3 for p in tokprofiles}
+            mclens[tokprofiles[(seed - 1) % len(tokprofiles)]] = 4
+            mclens.update({"strings": 4, "comments": 5})
         else:
+            mclens = {p: 4 for p in tokprofiles}
             mclens["terms"] = 5
-            mclens[profiles[1 + (seed - 1) % (len(profiles) - 1)]] = 5
+            mclens[tokprofiles[1 + (seed - 1) % (len(tokprofiles) - 1)]] = 5
+            mclens.update({"strings": 5, "comments": 6})
         for p in profiles:
             mc.append(("GrammarMC %s MaxLen=%d" % (p, mclens[p]), pool.submit(
                 model_check, work, "GrammarMC.tla",
@@ -802,15 +810,19 @@ def run(tier, seed, replay):
 
         # ---- 2. every token sequence over the alphabets of C09Universe, blank-separated and glued
         seqlen = 3 if quick else 4
+        piecelen = 4 if quick else 5
         cases = []
         for a in alphabets:
             alpha = [bytes(t) for t in a["alphabet"]]
-            for n in range(1, seqlen + 1):
+            piece = a["profile"] in pieces
+            for n in range(1, (piecelen if piece else seqlen) + 1):
                 for ts in itertools.product(alpha, repeat=n):
-                    cases.append({"srcB": list(b" ".join(ts)), "tag": "tokseq"})
-                    if n > 1:
+                    if not piece:
+                        cases.append({"srcB": list(b" ".join(ts)), "tag": "tokseq"})
+                    if n > 1 or piece:
                         cases.append({"srcB": list(b"".join(ts)), "tag": "tokseq"})
-        rep.cov["token_sequences"] = "every sequence of <= %d tokens over %d alphabets of 16-18 tokens, blank-separated and glued: %d texts" % (seqlen, len(alphabets), len(cases))
+        rep.cov["token_sequences"] = ("every sequence of <= %d tokens over %d token alphabets (16-18 tokens), blank-separated and glued; every glued sequence of "
+                                      "<= %d pieces over the 2 alphabets of string/comment pieces: %d texts" % (seqlen, len(tokprofiles), piecelen, len(cases)))
         ck.run_family("tokseq", cases)
 
         # ---- 3. every number-ish string (Parse and tonumber)
@@ -840,15 +852,15 @@ def run(tier, seed, replay):
 
         # ---- 6. re-spacings (token extents from the specification) of accepted and rejected texts
         cases = []
-        pools = [(recs_rand, ver_rand, 1.0), (recs_cor, ver_cor, 1.0), (recs_ops, ver_ops, 0.05 if quick else 0.2)]
+        pools = [(recs_rand, ver_rand, 0.5 if quick else 1.0), (recs_cor, ver_cor, 1.0), (recs_ops, ver_ops, 0.03 if quick else 0.2)]
         for recs, vers, frac in pools:
             for rec, v in zip(recs, vers):
-                if "spans" not in v or not v["spans"] or "srcB" not in rec or len(rec["srcB"]) > 6000:
+                if "spans" not in v or not v["spans"] or "srcB" not in rec or len(rec["srcB"]) > (2000 if quick else 6000):
                     continue
                 if frac < 1.0 and r.random() > frac:
                     continue
                 src = bytes(rec["srcB"])
-                vs = respacings(r, src, v["spans"])
+                vs = respacings(r, src, v["spans"], n_loose=1 if quick else 2)
                 cases.append({"srcB": rec["srcB"], "vars": [list(x) for x in vs], "tag": "respace"})
         ck.run_family("respacing", cases, noast=True, mode="vars")
 
